@@ -7,6 +7,10 @@ HOOK_COMMITS = ["189fd6a"]
 
 # id -> (technique, level text, level note, design ref)
 CLAIMED = {
+ "C12": ("Lean 4 theorems over an interleaving model of channel id allocation and a model of the reader's routing loop, parameterised by structural facts regenerated from conn.go/channel.go + concurrent runs of the real Conn against a multiplexing peer",
+         "Partial by nature (data-race freedom and the scheduler are runtime behaviour). Proved: for every number of threads and every schedule of their shared-memory accesses the ids handed out by the atomic fetch-and-add allocation are pairwise distinct (with the non-atomic load/add of the old code a 4-step schedule hands out a duplicate); after routing any interleaving of packets the state of channel c is that of processing exactly the sub-sequence with header channel c, in order; packets for unregistered ids yield one connection error each and change nothing; the facts the model rests on (one atomic RMW for the id, every access of the channel map under its lock, header-only packets delivered with the type NewChannel asserts) are regenerated from the source on every run. Outgoing ids/packet numbers are C01's theorems. The harness runs concurrent NewChannel/receive/send against a multiplexing peer and checks ids, per-channel sequences, error counts and headers; built with -race it is the supporting evidence for race freedom. Defects found and repaired: PROTACK type mismatch (231f70d), non-atomic id allocation and unlocked map access (ab106bf).",
+         "Trusted: Lean kernel; the extractor's structural facts; Go's sync/atomic and RWMutex; the schedules explored on the real code are whatever the scheduler produces; data-race freedom itself is not a theorem.",
+         "DESIGN.md §7 C12"),
  "C13": ("Lean 4 theorems over small state machines of the select of NextPackage, the per-packet context check and the close/lock protocol, parameterised by structural facts regenerated from channel.go/conn.go (go/ast) + scenario scripts on the real code under a watchdog",
          "Partial by nature (wall-clock promptness, the Go scheduler, select and RWMutex are runtime behaviour no theorem exhibits). Proved, at the structural facts regenerated from the source on every run: with the caller's or the connection's context done NextPackage has a result at once in every state and it is the closed condition, an already queued package/error or the context error; after Close every receive reports closed; a send whose context is done before the first packet writes nothing; while Close waits for the write lock some step is always enabled (no deadlock, for any fill level incl. full and unbuffered queues) and every schedule reaches the lock within 2*pending+fill+2 steps; without the draining (the code before fix 96477eb) the deadlock state is exhibited. The scenario harness runs the real calls (cancel/close/abandoned responses of capacity-2..capacity+8 packages, reader exit) under a watchdog and compares with the model's allowed answers. Defects found and repaired: Close deadlock (96477eb), double Close panic (0a9ad6c), reader outliving Conn.Close (94554e5).",
          "Trusted: Lean kernel; the extractor's structural facts (read lock held across sends to the package queue, draining goroutine before Lock, context cases of the selects); Go runtime semantics of select (any ready case), RWMutex (a waiting writer excludes new readers), channels; 1.5 s watchdog as the observation of 'bounded'.",
